@@ -700,8 +700,9 @@ def compare_step(c, im, mo):
     """first differing component between implementation and model at one step, or None"""
     if not close(im["E"], mo["E"]):
         return "energy"
-    if has_restart(c):
+    if has_restart(c) and all(t == t and abs(t) != float("inf") for F in (im["F"], mo["F"]) for f in F for t in f):
         # hill centres read back from a text state differ in the last digits: compare what acts on a unit vector
+        # (a unit vector exactly opposite to a hill centre gives +-inf components on both sides: compared as they are)
         if not force_close(tangential(c, im["F"], im["cv"]), tangential(c, mo["F"], im["cv"])):
             return "force"
     elif not force_close(im["F"], mo["F"]):
@@ -1318,7 +1319,9 @@ def gen_replica_case(r, k):
     B["id"] = "rb%s" % k
     B["it0"] = 0
     reg = "c05_reg_%s.txt" % k
-    ruf = r.choice([1, 2, 3])
+    ruf = r.choice([1, 2, 3, 4])
+    if r.random() < 0.6:
+        A["it0"] = r.randint(1, 7)       # the first step of A is then usually not one at which the replicas are read
     for c, rid, u in ((A, "A", ruf), (B, "B", 1000)):
         c["pmf"] = c["pmf_keep"] = False
         c["binary"] = False
@@ -1375,12 +1378,12 @@ def replica_oracle(c, impl, traj, fhills):
 
 
 def fixed_replica_case():
-    """walker B leaves three hills at 3.5; walker A, well-tempered (biasTemperature 300), arrives there: its hills are scaled by
-    the bias of both walkers"""
+    """walker B leaves three hills at 3.5; walker A, well-tempered (biasTemperature 300), starts there at
+    step 1, reads them at step 2 (replicaUpdateFrequency 2, on the absolute step): its hills are scaled by the bias of both walkers"""
     ev = lambda zs: [("step", False, [z]) for z in zs]
-    A = _cfg("ra_w", [_var()], [], wt=True)
+    A = _cfg("ra_w", [_var()], [], wt=True, it0=1)
     B = _cfg("rb_w", [_var()], [], wt=True)
-    A["events"], B["events"] = ev([1.5, 3.5, 3.5, 3.25, -0.25, 3.5]), ev([3.5, 3.5, 3.5, 3.5])
+    A["events"], B["events"] = ev([3.5, 3.5, 3.5, 3.25, -0.25, 3.5]), ev([3.5, 3.5, 3.5, 3.5])
     for c, rid, u in ((A, "A", 2), (B, "B", 1000)):
         c["meta_extra"] = ["multipleReplicas on", "replicaID %s" % rid, "replicasRegistry c05_reg_w.txt", "replicaUpdateFrequency %d" % u]
         c["outprefix"] = "c05w%s_w" % rid
